@@ -72,6 +72,8 @@ def _key(eng, k, st):
         ok, c = concrete(k)
         if ok:
             eng.accessed_param_keys.add(c)
+            return z3.StringVal(c)
+        eng.accessed_key_terms.append(k.term)
         return k.term
     raise Untranslatable(f"non-string Params key {k!r}")
 
@@ -124,6 +126,8 @@ def params_setitem(eng, st, p, args, kw, node):
     v = _as_param_str(eng, args[1], st)
     eng.write_field(st, p, "Params", "p_has", P_HAS, V(P_HAS, z3.Store(has, k, z3.BoolVal(True))))
     eng.write_field(st, p, "Params", "p_val", P_VAL, V(P_VAL, z3.Store(val, k, v)))
+    if p.term.get_id() not in st.fresh_refs:
+        bump_params_version(st)
     yield st, NONE
 
 
@@ -133,6 +137,8 @@ def params_delitem(eng, st, p, args, kw, node):
     for st1, ok in eng.fork(st, z3.Select(has, k), "del params[k]"):
         if ok:
             eng.write_field(st1, p, "Params", "p_has", P_HAS, V(P_HAS, z3.Store(has, k, z3.BoolVal(False))))
+            if p.term.get_id() not in st1.fresh_refs:
+                bump_params_version(st1)
             yield st1, NONE
         else:
             eng.raise_exc(st1, "KeyError", node)
@@ -166,6 +172,8 @@ def params_update(eng, st, p, args, kw, node):
         nv = z3.Lambda([k], z3.If(z3.Select(has2, k), z3.Select(val2, k), z3.Select(val, k)))
         eng.write_field(st, p, "Params", "p_has", P_HAS, V(P_HAS, nh))
         eng.write_field(st, p, "Params", "p_val", P_VAL, V(P_VAL, nv))
+        if p.term.get_id() not in st.fresh_refs:
+            bump_params_version(st)
         yield st, NONE
         return
     raise Untranslatable(f"Params.update with {o!r}", node)
@@ -357,17 +365,29 @@ def worker_params(eng, st, w, node):
     yield st, p
 
 
-otp_has = z3.Function("otp_has", RefSort, P_HAS.sort(), P_VAL.sort(), P_HAS.sort())
-otp_val = z3.Function("otp_val", RefSort, P_HAS.sort(), P_VAL.sort(), P_VAL.sort())
+otp_has = z3.Function("otp_has", RefSort, RefSort, z3.IntSort(), P_HAS.sort())
+otp_val = z3.Function("otp_val", RefSort, RefSort, z3.IntSort(), P_VAL.sort())
+
+
+def params_version(st):
+    return st.ghost.get("__params_version__", 0)
+
+
+def bump_params_version(st):
+    st.ghost["__params_version__"] = params_version(st) + 1
 
 
 def object_typed_params(eng, st, obj, args, kw, node):
-    """Trusted summary: a deterministic function of the object and of the contents of the given Params."""
+    """Trusted summary: a deterministic function of the object and of the contents of the given Params.
+
+    The contents are identified by (Params reference, write epoch): every write to any Params object on the
+    path starts a new epoch, so results are never related across a modification (sound over-approximation;
+    functions over array-sorted arguments make z3's array theory incomplete, hence no array arguments)."""
     p = args[0]
-    has, val = _p(eng, st, p)
+    ver = z3.IntVal(params_version(st))
     r = eng.new_object(st, "Params", "otp")
-    eng.write_field(st, r, "Params", "p_has", P_HAS, V(P_HAS, otp_has(obj.term, has, val)))
-    eng.write_field(st, r, "Params", "p_val", P_VAL, V(P_VAL, otp_val(obj.term, has, val)))
+    eng.write_field(st, r, "Params", "p_has", P_HAS, V(P_HAS, otp_has(obj.term, p.term, ver)))
+    eng.write_field(st, r, "Params", "p_val", P_VAL, V(P_VAL, otp_val(obj.term, p.term, ver)))
     yield st, r
 
 
